@@ -76,11 +76,13 @@ func (e *Engine) VerifyFunction(fn *ssa.Function, c *Contract) *FnCtx {
 	}
 	for _, rq := range c.Requires {
 		env := fr.specEnv(st, st, nil, nil)
-		fc.addFact("true", fr.evalBool(rq.E, env))
+		t, qs := fr.evalFact(rq.E, env)
+		fc.addFactQ("true", t, qs)
 	}
 	for _, as := range c.Assumes {
 		env := fr.specEnv(st, st, nil, nil)
-		fc.addFact("true", fr.evalBool(as.E, env))
+		t, qs := fr.evalFact(as.E, env)
+		fc.addFactQ("true", t, qs)
 		fc.assumptions[fmt.Sprintf("%s assumes (not required from callers): %s", shortFn(fn), as.Src)] = true
 	}
 	fc.nReqFacts = len(fc.facts)
@@ -104,12 +106,9 @@ func (e *Engine) VerifyFunction(fn *ssa.Function, c *Contract) *FnCtx {
 		fr.bindResults(renv, fn, res)
 		for _, en := range c.Ensures {
 			env := &SpecEnv{fr: fr, vars: renv, now: r.st, old: fr.pre, pkg: fn.Pkg.Pkg}
-			t := fr.evalBool(en.E, env)
+			t, sks := fr.evalGoal(en.E, env)
 			// do not let one post-condition help the next: build obligation without the assume-after-assert
-			o := fc.oblige("post", en.Label, r.guard, t, r.pos, fr.propsFor(en.Props))
-			if o != nil {
-				fc.facts = fc.facts[:len(fc.facts)-1]
-			}
+			fc.obligeSplit("post", en.Label, r.guard, t, r.pos, fr.propsFor(en.Props), false, sks)
 		}
 		for _, mf := range c.MustFail {
 			env := &SpecEnv{fr: fr, vars: renv, now: r.st, old: fr.pre, pkg: fn.Pkg.Pkg}
@@ -190,7 +189,7 @@ func shortHeap(v string) string {
 }
 
 // BuildQuery renders the SMT-LIB text of one obligation.
-func (o *Obligation) BuildQuery(withModel bool) string {
+func (o *Obligation) BuildQuery(withModel bool, lite bool) string {
 	fc := o.fc
 	var sb strings.Builder
 	sb.WriteString(prelude)
@@ -198,7 +197,44 @@ func (o *Obligation) BuildQuery(withModel bool) string {
 		sb.WriteString(d)
 		sb.WriteString("\n")
 	}
+	if !lite {
+		for _, d := range fc.closedDecls {
+			sb.WriteString(d)
+			sb.WriteString("\n")
+		}
+	}
+	// ground terms at which quantified hypotheses are instantiated by the generator itself
+	var cands []string
+	cs := map[string]bool{}
+	addc := func(t string) {
+		if !cs[t] {
+			cs[t] = true
+			cands = append(cands, t)
+		}
+	}
+	for _, sk := range o.Skolems {
+		addc(sk)
+		addc(sApp("-", sk, "1"))
+		addc(sApp("+", sk, "1"))
+	}
+	for _, c := range fc.cands[:o.NCands] {
+		addc(c)
+	}
+	addc("0")
 	for _, f := range fc.facts[:o.NFacts] {
+		if lite && f.Class == "closed" {
+			continue
+		}
+		for _, q := range f.Quants {
+			for _, c := range cands {
+				inst := strings.Replace(f.Term, q.Forall, strings.ReplaceAll(q.Inst, q.Var, c), 1)
+				if f.Guard == "true" {
+					fmt.Fprintf(&sb, "(assert %s)\n", inst)
+				} else {
+					fmt.Fprintf(&sb, "(assert (=> %s %s))\n", f.Guard, inst)
+				}
+			}
+		}
 		if f.Guard == "true" {
 			fmt.Fprintf(&sb, "(assert %s)\n", f.Term)
 		} else {
